@@ -12,7 +12,7 @@ REQUIRED_COUNTERS = ["ops.memory", "ops.sqlite", "ops.peewee", "state_comparison
 RULE = ("operation histories (5-40 ops quick, up to 200 thorough) over 1-3 buckets of one store, per backend: insert, "
         "bulk insert, bulk upsert (live ids of that bucket mixed with id-less events; sometimes the same id twice in one call), replace(id), replace_last "
         "(non-empty bucket, preceded by the limit-1 read that identifies its target), delete(live id), delete(id "
-        "that never existed), occasionally delete + re-create of the bucket; timestamps from a pool of 6 instants and end instants from a pool (ties, nesting, "
+        "that never existed in that bucket - nowhere, or live in another bucket of the store), occasionally delete + re-create of the bucket; timestamps from a pool of 6 instants and end instants from a pool (ties, nesting, "
         "zero-length, decreasing order, delete-then-upsert, delete-max-id-then-insert, identical twins with different ids, "
         "durations beyond a day); a third of the histories contain a burst of 3-7 operations that all concern the newest event of one "
         "bucket (replace_last, delete the newest / the highest id, inserts placed before / after / at the newest instant, the newest moved back); after EVERY operation the "
@@ -87,7 +87,8 @@ def gen_case(rng, ctx):
         elif r < 0.93:
             ops.append(dict(op="delete", b=b, pick=rng.choice([rng.randrange(100), -1, -1])))   # -1: the max id
         elif r < 0.975:
-            ops.append(dict(op="delete_missing", b=b))
+            # an id that never existed in this bucket: either nowhere, or one that is live in ANOTHER bucket of the store
+            ops.append(dict(op="delete_missing", b=b, foreign=rng.random() < 0.5, pick=rng.randrange(100)))
         else:
             ops.append(dict(op="recreate_bucket", b=b))     # whatever the store remembers about the old bucket must go
     if rng.random() < 0.35:
@@ -294,9 +295,16 @@ def run_case(case, ctx):
                 b = ds[bid]
                 m.clear()
             elif kind == "delete_missing":
-                missing_id += 1
-                b.delete(missing_id)
-                ever[bid].add(missing_id)
+                foreign = sorted({i for ob, om in model.items() if ob != bid for i in om} - ever[bid]) if op.get("foreign") else []
+                if foreign:
+                    target = foreign[op.get("pick", 0) % len(foreign)]
+                    ctx.count("deletes_of_an_id_live_in_another_bucket")
+                    flags.add("delete-foreign-id")
+                else:
+                    missing_id += 1
+                    target = missing_id
+                b.delete(target)
+                ever[bid].add(target)
             kinds.add(kind)
             ctx.count(f"ops.{backend}")
             if quiet:
